@@ -207,9 +207,12 @@ class CommonRD:
             if set_lt is not None and self.lt != set_lt:
                 actual_change = True
                 self.lt = set_lt
-            if set_base is not None and (is_initial or self.base != set_base):
-                actual_change = True
-                self.base = set_base
+            if set_base is not None:
+                if is_initial or self.base != set_base:
+                    actual_change = True
+                    self.base = set_base
+                # A base that was given is explicit also when it spells out
+                # what had been derived from the source address so far
                 self.base_is_explicit = True
 
             if not self.base_is_explicit and (is_initial or self.base != network_base):
